@@ -1,6 +1,6 @@
 (* C10 — session tracking hides backend cookies and never mixes sessions.  Statements only. *)
-From Coq Require Import List Arith Bool ZArith Lia.
-From IP Require Import Gen.SrcFacts_Sessions Sessions.Sessions Sessions.SessionsCheck Proofs.SessionsProofs Proofs.SessionWindowProofs.
+From Coq Require Import List Arith Bool ZArith Lia String.
+From IP Require Import Lib.Header Gen.SrcFacts_Sessions Sessions.Sessions Sessions.SessionsCheck Sessions.Writer Proofs.SessionsProofs Proofs.SessionWindowProofs Proofs.SessionWriterProofs.
 Import ListNotations.
 
 (* the source does not keep a cache entry for "no session" (it would take one of the configured slots) *)
@@ -67,3 +67,27 @@ Proof. vm_compute. reflexivity. Qed.
 Example C10_sharp_empty_id_slot :
   map (fun o => o_consulted o) (run 2 true s0 0 [(0, true); (0, true); (1, false)]) = [[]; []; []].
 Proof. vm_compute. reflexivity. Qed.
+
+(* the response writer, at the level of header fields, on the calls httputil.ReverseProxy makes for one response (any
+   number of informational responses, each with the header map of that moment, then the final header; later
+   WriteHeader calls are ignored): no Set-Cookie field of the backend's is ever visible to the client, neither on an
+   informational response nor on the final one; the final response carries exactly one Set-Cookie - the session cookie -
+   when the request came without a session and none otherwise; the final status and every other field are the
+   backend's; and the session's jar receives exactly the backend's Set-Cookie values, in order *)
+Theorem C10_writer_hides_cookies : forall has_session sc (interims : list (Z * header)) final h (later : list (Z * header)),
+  Forall (fun c => Writer.informational (fst c) = true) interims -> Writer.informational final = false ->
+  let s := sw_run has_session sc (interims ++ [(final, h)] ++ later) in
+  (forall c hh, In (c, hh) (sw_out s) -> Writer.informational c = true -> hvalues set_cookie hh = []) /\
+  (exists hh, last (sw_out s) (0%Z, []) = (final, hh) /\
+              hvalues set_cookie hh = (if has_session then [] else [sc]) /\
+              (forall k, k <> set_cookie -> hvalues k hh = hvalues k h)) /\
+  sw_jar s = hvalues set_cookie h.
+Proof. exact session_writer_client_view. Qed.
+Print Assumptions C10_writer_hides_cookies.
+
+Example C10_writer_example :
+  let s := sw_run false "S=1"%string [(103%Z, [("Link"%string, ["x"%string]); ("Set-Cookie"%string, ["early=1"%string])]);
+                                      (404%Z, [("Set-Cookie"%string, ["a=1"%string; "b=2"%string]); ("X"%string, ["y"%string])])] in
+  sw_out s = [(103%Z, [("Link"%string, ["x"%string])]); (404%Z, [("X"%string, ["y"%string]); ("Set-Cookie"%string, ["S=1"%string])])] /\
+  sw_jar s = ["a=1"%string; "b=2"%string].
+Proof. split; reflexivity. Qed.
